@@ -307,7 +307,70 @@ def _generator_constants(p):
     return cands[0] if len(cands) == 1 else None
 
 
+def _ref_vectors(ctx):
+    """C11.REFVEC: the specification side validated - the reference transcription (sa/spec/ref/.../bech32.py, what C11.REF compares
+    the repository's functions with) reproduces published BIP173 / BIP350 vectors and is its own inverse for every
+    (version, program length) pair.  Only the reference is executed, never the repository."""
+    import os, random
+    refp = os.path.join(os.path.dirname(os.path.dirname(os.path.abspath(__file__))), 'spec', 'ref', 'btc_hd_wallet', 'bech32.py')
+    with ctx.obligation('C11.REFVEC', 'reference Bech32 implementation (specification side)', None, 'sa/spec/ref/btc_hd_wallet/bech32.py') as ob:
+        ns = {}
+        exec(compile(open(refp).read(), refp, 'exec'), ns)
+        dec, enc = ns['decode'], ns['encode']
+        VALID = [("BC1QW508D6QEJXTDG4Y5R3ZARVARY0C5XW7KV8F3T4", "0014751e76e8199196d454941c45d1b3a323f1433bd6"),
+                 ("tb1qrp33g0q5c5txsp9arysrx4k6zdkfs4nce4xj0gdcccefvpysxf3q0sl5k7", "00201863143c14c5166804bd19203356da136c985678cd4d27a1b8c6329604903262"),
+                 ("bc1pw508d6qejxtdg4y5r3zarvary0c5xw7kw508d6qejxtdg4y5r3zarvary0c5xw7kt5nd6y", "5128751e76e8199196d454941c45d1b3a323f1433bd6751e76e8199196d454941c45d1b3a323f1433bd6"),
+                 ("BC1SW50QGDZ25J", "6002751e"), ("bc1zw508d6qejxtdg4y5r3zarvaryvaxxpcs", "5210751e76e8199196d454941c45d1b3a323"),
+                 ("tb1qqqqqp399et2xygdj5xreqhjjvcmzhxw4aywxecjdzew6hylgvsesrxh6hy", "0020000000c4a5cad46221b2a187905e5266362b99d5e91c6ce24d165dab93e86433"),
+                 ("tb1pqqqqp399et2xygdj5xreqhjjvcmzhxw4aywxecjdzew6hylgvsesf3hn0c", "5120000000c4a5cad46221b2a187905e5266362b99d5e91c6ce24d165dab93e86433"),
+                 ("bc1p0xlxvlhemja6c4dqv22uapctqupfhlxm9h8z3k2e72q4k9hcz7vqzk5jj0", "512079be667ef9dcbbac55a06295ce870b07029bfcdb2dce28d959f2815b16f81798")]
+        INVALID = ["tc1qw508d6qejxtdg4y5r3zarvary0c5xw7kg3g4ty", "bc1qw508d6qejxtdg4y5r3zarvary0c5xw7kv8f3t5",
+                   "bc1qw508d6qejxtdg4y5r3zarvary0c5xw7kemeawh", "tb1q0xlxvlhemja6c4dqv22uapctqupfhlxm9h8z3k2e72q4k9hcz7vq24jc47",
+                   "bc1p38j9r5y49hruaue7wxjce0updqjuyyx0kh56v8s25huc6995vvpql3jow4", "BC130XLXVLHEMJA6C4DQV22UAPCTQUPFHLXM9H8Z3K2E72Q4K9HCZ7VQ7ZWS8R",
+                   "bc1pw5dgrnzv", "bc1p0xlxvlhemja6c4dqv22uapctqupfhlxm9h8z3k2e72q4k9hcz7v8n0nx0muaewav253zgeav",
+                   "tb1p0xlxvlhemja6c4dqv22uapctqupfhlxm9h8z3k2e72q4k9hcz7vq47Zagq", "bc1p0xlxvlhemja6c4dqv22uapctqupfhlxm9h8z3k2e72q4k9hcz7v07qwwzcrf",
+                   "tb1p0xlxvlhemja6c4dqv22uapctqupfhlxm9h8z3k2e72q4k9hcz7vpggkg4j", "bc1gmk9yu"]
+        bad = []
+        n = 0
+        for a, spk in VALID:
+            n += 1
+            hrp = a[:2].lower()
+            v, prog = dec(hrp, a)
+            want = bytes.fromhex(spk)
+            if v is None or bytes([v + 0x50 if v else 0, len(prog)]) + bytes(prog) != want or enc(hrp, v, prog) != a.lower():
+                bad.append(('valid vector', a))
+        for a in INVALID:
+            n += 1
+            if any(dec(h, a) != (None, None) for h in ('bc', 'tb')):
+                bad.append(('invalid vector accepted', a))
+        rnd = random.Random(ctx.seed)
+        for ver in range(0, 18):
+            for ln in range(0, 43):
+                prog = [rnd.randrange(256) for _ in range(ln)]
+                legal = 0 <= ver <= 16 and 2 <= ln <= 40 and (ver != 0 or ln in (20, 32))
+                for hrp in ('bc', 'tb'):
+                    n += 1
+                    a = enc(hrp, ver, prog)
+                    if legal:
+                        if a is None or dec(hrp, a) != (ver, prog) or len(a) > 90:
+                            bad.append(('round trip', hrp, ver, ln))
+                        elif dec('tb' if hrp == 'bc' else 'bc', a) != (None, None) or dec(hrp, a.upper()) != (ver, prog):
+                            bad.append(('prefix / case', hrp, ver, ln))
+                    elif a is not None:
+                        bad.append(('illegal combination encoded', hrp, ver, ln))
+        ob.evaluations += n
+        ob.saw('sa/spec/ref/btc_hd_wallet/bech32.py')
+        ob.require(not bad, 'the reference Bech32 / Bech32m implementation reproduces the published vectors and round-trips every '
+                   '(version, length) pair', 'sa/spec/ref/btc_hd_wallet/bech32.py', found=bad[:4])
+        ob.note('%d cases: 8 valid and 12 invalid published addresses, all (version, length) pairs in 0..17 x 0..42 on two prefixes' % n)
+
+
 def thorough(ctx):
+    _ref_vectors(ctx)
+    _distance(ctx)
+
+
+def _distance(ctx):
     """C11.DISTANCE: the error-detection clause, decided by exhaustive enumeration over the checksum's linear structure for the
     generator words and the Bech32m constant *as written in the repository* (C11.REF shows that the code is the BIP173
     algorithm over these constants; here the algorithm with these constants is shown to have the distance the property
